@@ -24,7 +24,9 @@ def gen_cases(tier, seed, salt):
         st = structs[int(sub.integers(len(structs)))]
         spec = S.gen_spec(sub, structure=st, fams=["weibull", "lognormal", "lnnf", "expweib", "gengamma", "normal"], allow_hostile=True)
         alpha = float(10 ** sub.uniform(-6, math.log10(0.3)))
-        mode = str(sub.choice(["explicit", "explicit", "explicit", "too-small", "default-limits" if not three else "explicit", "bimodal" if not three else "explicit", "near-miss" if not three else "too-small", "near-miss" if not three else "explicit", "modes-side-by-side" if not three else "explicit", "four-modes" if not three else "explicit", "tiny-second-region" if not three else "explicit", "default-limits-mass-below-zero" if not three else "explicit", "warning-sequence" if not three else "too-small", "oblique-ridge" if not three else "explicit", "few-cells"]))
+        modes_ = ["explicit", "explicit", "explicit", "too-small", "default-limits" if not three else "explicit", "bimodal" if not three else "explicit", "near-miss" if not three else "too-small", "near-miss" if not three else "explicit", "modes-side-by-side" if not three else "explicit", "four-modes" if not three else "explicit", "tiny-second-region" if not three else "explicit", "default-limits-mass-below-zero" if not three else "explicit", "warning-sequence" if not three else "too-small", "oblique-ridge" if not three else "explicit", "few-cells", "integer-first-axis" if not three else "explicit"]
+        _ = sub.choice(modes_)  # (keeps the random stream of the earlier versions)
+        mode = str(modes_[(k if not three else k - n2) % len(modes_)])  # every mode in every run, not a random draw
         if mode == "near-miss":
             # the grid misses (or exceeds) 1-alpha by a small multiple of alpha: the warning rule at its edge
             alpha = float(10 ** sub.uniform(-6, -2.5))
@@ -126,6 +128,10 @@ def run(case, ctx, which):
         alpha = float(rng.uniform(0.005, 0.1))
     if case["mode"] == "warning-sequence":
         return run_sequence(case, ctx, which, rng)
+    if case["mode"] == "integer-first-axis":
+        # limits and cell size of the first variable given as Python ints (whole metres), the second as floats
+        spec = {"dims": [{"fam": "weibull", "params": {"alpha": float(rng.uniform(5.0, 8.0)), "beta": float(rng.uniform(1.6, 2.4)), "gamma": 0.0}}, {"fam": "lognormal", "cond": 0, "params": {"mu": {"shape": "power3", "coef": [1.0, 0.2, 0.6]}, "sigma": float(rng.uniform(0.15, 0.3))}}]}
+        alpha = float(10 ** rng.uniform(-3, -0.7))
     if case["mode"] == "oblique-ridge":
         # a narrow diagonal ridge resolved by about one cell: region cells that touch only through their corners
         sg = float(rng.uniform(0.12, 0.3))
@@ -172,7 +178,12 @@ def run(case, ctx, which):
         kw["deltas"] = [d0, float(hi1) / n1]
         ctx.cls("shortfall/alpha", u)
     elif case["mode"] not in ("default-limits", "default-limits-mass-below-zero"):
-        if case["mode"] == "few-cells":
+        if case["mode"] == "integer-first-axis":
+            hi1_ = float(ref.dim_range(1, eps=alpha * 1e-3)[1])
+            lims = [(0, int(math.ceil(float(ref.dim_range(0, eps=alpha * 1e-3)[1])))), (0.0, hi1_)]
+            kw["limits"] = lims
+            kw["deltas"] = [1, hi1_ / int(rng.integers(40, 90))]
+        elif case["mode"] == "few-cells":
             # ten cells per axis over a range several times the bulk: the region consists of a handful of cells
             m_ = float(rng.choice([3.0, 5.0, 8.0]))
             lims = [(0.0, float(ref.dim_range(i_, eps=1e-3)[1]) * m_) for i_ in range(d)]
@@ -192,7 +203,7 @@ def run(case, ctx, which):
             ctx.inconcl("no finite limits for this spec")
             return
         deltas = [(hi - lo) / n for (lo, hi), n in zip(lims, case["ncell"])]
-        form = case["delta_form"]
+        form = case["delta_form"] if case["mode"] != "integer-first-axis" else "as-given"
         if form == "scalar":
             dsc = float(np.mean(deltas))
             # keep the number of cells per axis in range
@@ -205,7 +216,8 @@ def run(case, ctx, which):
             kw["deltas"] = list(deltas)
         elif form == "array":
             kw["deltas"] = np.array(deltas)
-        kw["limits"] = [tuple(l) if rng.random() < 0.7 else list(l) for l in lims]
+        if form != "as-given":
+            kw["limits"] = [tuple(l) if rng.random() < 0.7 else list(l) for l in lims]
     ctx.sig = f"{S.spec_signature(spec)}|{alpha:.4g}|{case['mode']}|{case['ncell']}|{case['delta_form']}"
     with warnings.catch_warnings(record=True) as rec:
         warnings.simplefilter("always")
